@@ -483,6 +483,8 @@ def _valuelike(t):
 
 
 class _Sym(Flow):
+    split_assign_ifexp = True  # a key chosen by a conditional expression is followed arm by arm
+
     def __init__(self, an, func, depth, stack):
         super().__init__()
         self.an = an
